@@ -76,6 +76,8 @@ structure Dns where
   timeoutArmed : Bool := false
   retryArmed : Bool := false
   connOpen   : Bool := false      -- environment: a connect was requested and not yet closed
+  closing    : Bool := false      -- environment: the firmware closed a requested connection; the SDK may still
+                                  -- deliver its disconnect callback (until the next connect)
   deriving Repr, DecidableEq
 
 inductive DnsEv
@@ -102,7 +104,7 @@ namespace Dns
 def result (P : DnsParams) (s : Dns) : Dns × List DnsObs :=
   if s.success = false ∧ s.tries < P.servers then ({ s with retryArmed := true }, [])
   else
-    let s := { s with hasReq := false }
+    let s := { s with hasReq := false, retryArmed := false }
     if s.pending then
       ({ s with pending := false }, [.callback (if s.success then some s.ip else none)])
     else (s, [])
@@ -110,7 +112,7 @@ def result (P : DnsParams) (s : Dns) : Dns × List DnsObs :=
 /-- supla_esp_dns__resolve -/
 def doResolve (P : DnsParams) (s : Dns) : Dns × List DnsObs :=
   ({ s with success := false, ip := [0, 0, 0, 0], timeoutArmed := true, tries := s.tries + 1,
-            connOpen := true },
+            connOpen := true, closing := false },
    [.disconnect, .connect (s.tries % P.servers)])
 
 def step (P : DnsParams) (s : Dns) : DnsEv → Dns × List DnsObs
@@ -129,18 +131,19 @@ def step (P : DnsParams) (s : Dns) : DnsEv → Dns × List DnsObs
     if !s.connOpen then (s, [.noConn])
     else if sentOk then (s, [.sent s.hasReq s.reqLen])
     else
-      let (s', o) := result P { s with connOpen := false }
+      let (s', o) := result P { s with connOpen := false, closing := true }
       (s', [.sent s.hasReq s.reqLen, .disconnect] ++ o)
   | .reply p =>
     if !s.connOpen then (s, [.noConn])
     else match (dnsRecv P s.reqLen p).1 with
     | .fail => result P s
     | .ignore => (s, [])
-    | .ok ip => ({ s with success := true, ip := ip, connOpen := false }, [.disconnect])
-  | .disconnected => if !s.connOpen then (s, [.noConn]) else result P { s with connOpen := false }
+    | .ok ip => ({ s with success := true, ip := ip, connOpen := false, closing := true }, [.disconnect])
+  | .disconnected =>
+    if !s.connOpen && !s.closing then (s, [.noConn]) else result P { s with connOpen := false, closing := false }
   | .fireTimeout =>
     if s.timeoutArmed then
-      let (s', o) := result P { s with timeoutArmed := false, connOpen := false }
+      let (s', o) := result P { s with timeoutArmed := false, connOpen := false, closing := s.connOpen || s.closing }
       (s', [.disconnect] ++ o)
     else (s, [.notArmed])
   | .fireRetry =>
